@@ -4,9 +4,10 @@ Lock-step of hexsim::Processor (HEX_VERIF hook: planted state, one-instruction
 observer) against the reference ISA model (harness/refisa.hpp)."""
 import json
 import os
+import random
 import sys
 
-from lib import common
+from lib import asmprog, common, xgen, xref
 from lib.common import Verdict
 
 OPC = ["LDAM", "LDBM", "STAM", "LDAC", "LDBC", "LDAP", "LDAI", "LDBI", "STAI", "BR", "BRZ", "BRN",
@@ -16,7 +17,63 @@ FILTER = ["defined", "undefined-opcode-0xC", "undefined-OPR", "undefined-SVC", "
 
 
 def build():
+    common.build_cxx("h_x", ["h_x.cpp", "repo:hex.cpp"])
+    common.build_cxx("h_asm", ["h_asm.cpp", "repo:hex.cpp"])
+    common.build_cxx("h_sim", ["h_sim.cpp", "repo:hex.cpp"])
     return common.build_cxx("h_isa", ["h_isa.cpp", "repo:hex.cpp"])
+
+
+def whole_runs(v, tier):
+    """(d) whole toolchain binaries in lock-step: compiled X programs (h_x) and hand-written-style assembly (h_sim)."""
+    rnd = random.Random(common.seed() * 41 + 2)
+    hx = common.build_cxx("h_x", ["h_x.cpp", "repo:hex.cpp"])
+    hasm = common.build_cxx("h_asm", ["h_asm.cpp", "repo:hex.cpp"])
+    hsim = common.build_cxx("h_sim", ["h_sim.cpp", "repo:hex.cpp"])
+    nx, na = (400, 400) if tier == "quick" else (30000, 30000)
+    cases = []
+    for i in range(nx):
+        prog, console, files = xgen.random_program(random.Random(rnd.randrange(1 << 62)))
+        f = {"src": xref.render_program(prog), "input": console, "maxcycles": 300000}
+        for k, data in files.items():
+            f["fin%d" % k] = data
+        cases.append((i, f))
+    res = common.run_harness(hx, cases, args=["cases"], tag="c02x")
+    steps = 0
+    for i, f in cases:
+        r = res[str(i)]
+        if r["status"] != "ok" or not r["out"] or not r["out"].get("ok"):
+            continue
+        o = r["out"]
+        steps += o.get("cycles", 0)
+        v.count("whole_runs_compiled_programs")
+        if o["isa_mismatches"]:
+            v.violation("whole-run:" + str(o["isa_mismatches"][0].get("what", "load") if isinstance(o["isa_mismatches"][0], dict) else "load"),
+                        {"source": f["src"][:3000], "mismatch": o["isa_mismatches"][:2]})
+        if o["console"] != o["ref_console"] or o["consumed"] != o["ref_consumed"] or \
+                (o["ended"] == "exit" and (o["run_return"] & 0xFFFFFFFF) != o["ref_exit"]) or \
+                any(fl["data"] != fl["ref"] or not fl["exists"] for fl in o["files"]):
+            v.violation("whole-run:io-or-exit", {"source": f["src"][:3000], "console": o["console"], "ref_console": o["ref_console"],
+                                                  "run_return": o["run_return"], "ref_exit": o["ref_exit"]})
+    aprogs = [asmprog.program(random.Random(rnd.randrange(1 << 62))) for _ in range(na)]
+    ares = common.run_harness(hasm, [(i, {"src": t}) for i, (t, _) in enumerate(aprogs)], args=["cases"], tag="c02a")
+    acases = []
+    for i, (t, inp) in enumerate(aprogs):
+        r = ares[str(i)]
+        if r["status"] == "ok" and r["out"] and r["out"].get("ok"):
+            acases.append((i, {"file": common.unhex(r["out"]["file"]), "input": inp, "fill": 0, "maxcycles": 0, "hardlimit": 300000}))
+    sres = common.run_harness(hsim, acases, args=["cases"], tag="c02s")
+    for i, f in acases:
+        r = sres[str(i)]
+        if r["status"] != "ok" or not r["out"]:
+            v.violation("whole-run:simulator-abnormal", {"asm": aprogs[i][0][:3000], "status": r["status"], "err": r["err"][-300:]})
+            continue
+        o = r["out"]
+        steps += o["cycles"]
+        v.count("whole_runs_assembly_programs")
+        if o["ended"] == "mismatch":
+            v.violation("whole-run:registers", {"asm": aprogs[i][0][:3000], "mismatch": o["mismatch"]})
+    v.count("whole_run_instructions_compared", steps)
+    return steps
 
 
 def run(tier, replay=None):
@@ -62,7 +119,8 @@ def run(tier, replay=None):
             v.violation(key, dict(base, ctx=m["ctx"], mismatch=m))
         if js["mismatches"] > len(js["mismatch_list"]):
             v.violation("more-mismatches", dict(base, ctx="", count=js["mismatches"]))
-    v.cov["evaluations"] = tot.get("steps", 0)
+    extra = whole_runs(v, tier)
+    v.cov["evaluations"] = tot.get("steps", 0) + extra
     v.cov["cases"] = tot.get("cases", 0)
     nb = sum(bytes_seen)
     # distinct non-trivial: (instruction byte x operand-register class) cells that were compared at least once
